@@ -23,11 +23,12 @@ type Config struct {
 	PSK          bool
 	EMSOff       bool
 	CID          int // 0: no connection IDs; n: both sides use counting n-byte generators
+	MTU          int // 0: default; n: both sides fragment their flights at n bytes (flights span several datagrams)
 }
 
 var pskKey = []byte{0xC1, 0x4C, 0x14, 0x77, 0x01}
 
-// Configs enumerates suite family x EMS x CID.
+// Configs enumerates suite family x EMS x CID x MTU.
 func Configs() []Config {
 	var out []Config
 	type fam struct {
@@ -55,6 +56,7 @@ func Configs() []Config {
 					n += "-nocid"
 				}
 				out = append(out, Config{Name: n, Primary: f.p, Alt: f.a, PSK: f.psk, EMSOff: emsOff, CID: cid})
+				out = append(out, Config{Name: n + "-mtu200", Primary: f.p, Alt: f.a, PSK: f.psk, EMSOff: emsOff, CID: cid, MTU: 200})
 			}
 		}
 	}
@@ -254,6 +256,7 @@ func (h *Hist) cfgs() (world.Cfg, world.Cfg) {
 	if h.Cfg.EMSOff {
 		c.EMS, s.EMS = 2, 2
 	}
+	c.MTU, s.MTU = h.Cfg.MTU, h.Cfg.MTU
 	if h.Cfg.CID > 0 {
 		c.Extra = []dtls.Option{dtls.WithConnectionIDGenerator(h.CGen.next)}
 		s.Extra = []dtls.Option{dtls.WithConnectionIDGenerator(h.SGen.next)}
